@@ -52,6 +52,7 @@ CONSTANTS NF,       \* number of futures the environment may schedule
                     \*   "lateDecrement"  a retiring worker decides to leave under the lock but decrements
                     \*                    cc.watchers in a later critical section (a Call in between counts it as alive)
                     \*   "quietCancel"    cancel() notifies only when something is left in the queue
+                    \*   "rendezvous"     the wake channel is unbuffered (see Notify)
 
 VARIABLES now,        \* the clock
           nc,         \* futures 1..nc have been scheduled
@@ -86,7 +87,12 @@ Init == /\ now = 0 /\ nc = 0 /\ fireT = [i \in Fut |-> 0] /\ heap = {}
         /\ started = {} /\ cancelled = {} /\ intime = {}
         /\ hist = <<>>
 
-Notify == tokens' = Min2(tokens + 1, TokCap)
+\* wrong variant "rendezvous": the wake channel has no buffer - a notification is delivered only to a worker that is
+\* blocked in its select at that very moment (it becomes a token that worker takes at once), otherwise it is dropped
+Asleep == {w \in W : pc[w] = "sleep"}
+Notify == tokens' = IF Variant = "rendezvous"
+                    THEN (IF Asleep # {} THEN Min2(tokens + 1, Cardinality(Asleep)) ELSE tokens)
+                    ELSE Min2(tokens + 1, TokCap)
 Log(e) == hist' = IF KeepHist THEN Append(hist, e) ELSE hist
 
 \* ------------------------------------------------------------------ environment
@@ -138,8 +144,11 @@ Leave(w) ==
     /\ IF watchers = 1 THEN Log([op |-> "idle"]) ELSE hist' = hist
     /\ UNCHANGED <<now, nc, fireT, heap, tokens, dl, cur, started, cancelled, intime>>
 
+\* the worker has decided to sleep and armed its timer; it releases the lock ("dozing") and only then blocks in the
+\* select ("sleep", action Doze): a Call or Cancel may notify in between - with the buffered wake channel of the code
+\* the token simply waits in the buffer
 Sleep(w, tmt) ==
-    /\ pc' = [pc EXCEPT ![w] = "sleep"]
+    /\ pc' = [pc EXCEPT ![w] = "dozing"]
     /\ dl' = [dl EXCEPT ![w] = now + tmt]
     /\ UNCHANGED <<heap, watchers, mis, cur, hist>>
 
@@ -167,6 +176,11 @@ Crit(w) ==
                  ELSE Sleep(w, tmt)
     /\ UNCHANGED <<now, nc, fireT, tokens, started, cancelled, intime>>
 
+Doze(w) ==
+    /\ pc[w] = "dozing"
+    /\ pc' = [pc EXCEPT ![w] = "sleep"]
+    /\ UNCHANGED <<now, nc, fireT, heap, watchers, tokens, mis, dl, cur, started, cancelled, intime, hist>>
+
 Run(w) ==
     /\ pc[w] = "run"
     /\ started' = started \cup {cur[w]}
@@ -190,8 +204,8 @@ Wake(w) ==
     /\ dl' = [dl EXCEPT ![w] = 0]
     /\ UNCHANGED <<now, nc, fireT, heap, watchers, cur, started, cancelled, intime, hist>>
 
-WorkerStep(w) == Crit(w) \/ Run(w) \/ TimerFire(w) \/ Wake(w) \/ Leave(w)
-WorkerEnabled(w) == \/ pc[w] \in {"crit", "run", "leaving"}
+WorkerStep(w) == Crit(w) \/ Doze(w) \/ Run(w) \/ TimerFire(w) \/ Wake(w) \/ Leave(w)
+WorkerEnabled(w) == \/ pc[w] \in {"crit", "run", "leaving", "dozing"}
                     \/ pc[w] = "sleep" /\ (now > dl[w] \/ tokens > 0)
 
 Tick ==
@@ -213,7 +227,7 @@ FairSpec == Spec /\ WF_vars(Tick) /\ \A w \in W : WF_vars(WorkerStep(w))
 \* ------------------------------------------------------------------- invariants
 TypeOK == /\ now \in 0 .. MaxT /\ nc \in 0 .. NF /\ heap \subseteq 1 .. nc
           /\ watchers \in 0 .. MaxW /\ tokens \in 0 .. TokCap
-          /\ \A w \in W : pc[w] \in {"dead", "crit", "run", "sleep", "leaving"} /\ mis[w] \in 0 .. 2
+          /\ \A w \in W : pc[w] \in {"dead", "crit", "run", "sleep", "leaving", "dozing"} /\ mis[w] \in 0 .. 2
           /\ started \subseteq 1 .. nc /\ intime \subseteq cancelled /\ cancelled \subseteq 1 .. nc
 
 \* cc.watchers is exactly the number of live watcher goroutines
@@ -233,13 +247,13 @@ CancelEffective == \A i \in intime : i \notin started /\ \A w \in W : pc[w] = "r
 NoLostWakeup ==
     heap # {} =>
         \/ \E w \in W : pc[w] \in {"crit", "run"}
-        \/ \E w \in W : pc[w] = "sleep" /\ dl[w] <= MinFire
-        \/ tokens > 0 /\ \E w \in W : pc[w] = "sleep"
+        \/ \E w \in W : pc[w] \in {"sleep", "dozing"} /\ dl[w] <= MinFire
+        \/ tokens > 0 /\ \E w \in W : pc[w] \in {"sleep", "dozing"}
 
 \* WIND-DOWN IS ARMED: with nothing pending no worker sleeps towards a distant deadline - its timer is set to at most
 \* the idle time-out, or a wake token is on its way (this is why cancel() must notify even when it empties the queue)
 WindDownArmed ==
-    heap = {} => \A w \in W : pc[w] = "sleep" => (dl[w] - now <= IdleT \/ tokens > 0)
+    heap = {} => \A w \in W : pc[w] \in {"sleep", "dozing"} => (dl[w] - now <= IdleT \/ tokens > 0)
 
 \* consequence: with prompt callbacks nothing pending is ever more than one tick overdue
 LatenessOneTick == \A i \in heap : now <= fireT[i] + 1
@@ -283,7 +297,7 @@ AbsInv  == Abs!TypeOK /\ Abs!InTimeNeverStarted
 \* (a repeated Cancel cannot change `intime`: see Cancel).  `now` and `hist` are not in the view.
 Clip(x) == IF x < 0 - 2 THEN 0 - 2 ELSE x
 View == <<nc, heap, [i \in Fut |-> IF i \in heap THEN Clip(fireT[i] - now) ELSE 0], watchers, tokens, pc, mis,
-          [w \in W |-> IF pc[w] = "sleep" THEN Clip(dl[w] - now) ELSE 0], cur, started, cancelled, intime>>
+          [w \in W |-> IF pc[w] \in {"sleep", "dozing"} THEN Clip(dl[w] - now) ELSE 0], cur, started, cancelled, intime>>
 \* one line per generated transition that extends the script
 Emit == IF hist' # hist THEN EmitHist(hist') ELSE TRUE
 \* simulation mode: only the script of the complete random behaviour
